@@ -135,14 +135,42 @@ package app
 //@ ghost var rgEnd int
 //@ ghost var rgLen int
 //@ ghost var rgApplied bool
+// The containment part (C07, C08): a file is opened only for a path that was checked for a NUL byte and - when a
+// path rewriter produced it, so that no normalisation vouches for it - for a "/../" segment. The compressed variant
+// is asked for only when the request has no Range header and accepts gzip. A range that does not parse is
+// answered 416; the final status is 206 exactly when a range was applied, else 200.
+//@ immutable fsHandler.pathRewrite :: configuration copied from FS when the handler is built
+//@ ghost var fsNulFree bool
+//@ ghost var fsRewritten bool
+//@ ghost var fsDotDotFree bool
+//@ ghost var fsNoRange bool
+//@ ghost var fsGzip bool
+//@ ghost var rgParsed bool
 //@ func fsHandler.handleRequest(h, c, ctx)
-//@   props C08
+//@   props C08, C07
 //@   abstract
 //@   noinline
 //@   panics
-//@   modifies rgOK, rgStart, rgEnd, rgLen, rgApplied
+//@   modifies rgOK, rgStart, rgEnd, rgLen, rgApplied, fsNulFree, fsRewritten, fsDotDotFree, fsNoRange, fsGzip, rgParsed
 //@   ghostset-at-entry rgOK = false
 //@   ghostset-at-entry rgApplied = false
+//@   ghostset-at-entry rgParsed = false
+//@   ghostset-at-entry fsNulFree = false
+//@   ghostset-at-entry fsRewritten = false
+//@   ghostset-at-entry fsDotDotFree = false
+//@   ghostset-at-entry fsNoRange = false
+//@   ghostset-at-entry fsGzip = false
+//@   ghostset after PathRewriteFunc: fsRewritten = true
+//@   ghostset after IndexByte!: fsNulFree = (arg1 == 0 && result < 0)
+//@   ghostset after Index!: fsDotDotFree = (result < 0 && len(arg1) == 4 && arg1[0] == '/' && arg1[1] == '.' && arg1[2] == '.' && arg1[3] == '/')
+//@   ghostset after RequestHeader.PeekRange: fsNoRange = (len(result) == 0)
+//@   ghostset after RequestHeader.HasAcceptEncodingBytes: fsGzip = result
+//@   assert before openFSFile: fsNulFree && (fsRewritten ==> fsDotDotFree)
+//@   assert before openIndexFile: fsNulFree && (fsRewritten ==> fsDotDotFree)
+//@   assert @C08 before openFSFile: arg2 ==> fsNoRange && fsGzip
+//@   ghostset after ParseByteRange: rgParsed = true
+//@   assert @C08 before RequestContext.AbortWithMsg: rgParsed && !rgOK ==> arg2 == 416
+//@   assert @C08 before RequestContext.SetStatusCode#1: (rgApplied ==> arg1 == 206) && (!rgApplied ==> arg1 == 200)
 //@   ghostset before ParseByteRange: rgLen = arg1
 //@   ghostset after ParseByteRange: rgOK = (result2 == nil)
 //@   ghostset after ParseByteRange: rgStart = result0
